@@ -498,9 +498,9 @@ def run_rvs_moments(case):
 CHECK = Check(
     P, 'exploration',
     rule=('Hypothesis-generated samples (1..40 values; multiples of 1/64, small integers or generic doubles; arbitrary order), '
-          'weight vectors (None, equal, with zeros, range 1e-3..1e3), whole-number values / weights also as int64 arrays, alphas incl. 0, 1 and exact cumulative boundaries; mixtures '
+          'weight vectors (None, equal, with zeros, range 1e-3..1e3), whole-number values / weights also as integer arrays (narrowest dtype that holds them), values scaled by 2^-100..2^40, alphas incl. 0, 1 and exact cumulative boundaries; mixtures '
           'with d 1..4, K 1..8 (K>=2 when d>=2), scalar/SPD/default covariance, all input shapes, optionally up to three further evaluations after the covariance was changed in place or replaced; constrained sampler with '
-          'half-space/box/tight constraints. Non-trivial: quantile = ties, zero weights or a boundary alpha with >=2 values; '
+          'half-space/box/tight constraints, sizes None / 0 / 1-30, the returned array re-checked after a later call. Non-trivial: quantile = ties, zero weights or a boundary alpha with >=2 values; '
           'variance = unequal weights; density = K>=3 with unequal weights; sampler = acceptance below 50 %.'),
     parts=[
         Part('quantile', run_quantile, strategy=strat_quantile, examples={'quick': 3000, 'thorough': 100000}),
